@@ -475,7 +475,7 @@ fn main() {
         }
         return;
     }
-    let n = rep.share(40000, 2000000);
+    let n = rep.share(120000, 2000000);
     for i in 0..n {
         let label = format!("C14|{}|{}", args.shard, i);
         let mut rng = Rng::new(args.seed, &label);
